@@ -134,6 +134,7 @@ def c03(tier, seed):
     stress_sc += [{"scenario": "0:a,a,r10,r11,a,r14|a,a,r20,r21,a,r24|a,e,p,o30,v|f,a,r40,e", "every": 2, "count": 100 if quick else 2000}]
     return {"models": models, "runners": RUNNERS_CC, "trace_module": "TraceCC", "scenarios": scen,
             "stress_runners": STRESS_CC, "stress_scenarios": stress_sc,
+            "inductive": [{"module": "SpinLockInd", "steps": [("IndInit", "IndInv", 0), ("IndInv", "IndInv", 1), ("IndInv", "MutualExclusion", 0)]}],
             "corpus": [], "model_defects": [{"module": "SpinLock", "cfg": sl_cfg([1, 2, 3], 2, defects=["cas_stale"]), "defect": "cas_stale"}],
             "rule": "ConcCL.tla (threads x micro-steps of callbacklist.h with the abstract list updated at the linearization points) model-checked over all "
                     "interleavings of the scenario sets; on the real CallbackList and EventDispatcher (std::map and std::unordered_map) every scenario "
